@@ -235,42 +235,40 @@ def memoryToWorkerType : Cloud → String → Option String
   | .gcp, m => gcpMemoryToWorkerType.lookup m
   | .azure, m => azureMemoryToWorkerType.lookup m
 
+/-- the `machine_type is None` half of the block: cpu validity, memory resolution, selection -/
+def poolRequest (price : Pool → String → Nat × Nat × Nat → Nat) (locs : List String) (pools : List Pool) (j : Jpim)
+    (cloud : Cloud) (label : String) (preemptible : Bool) (cores : Nat) (memReq : MemReq) (storage : Nat) : Answer :=
+  if ¬ isValidCoresMcpu cores then .invalid
+  else
+    match memReq with
+    | .sym name =>
+      match memoryToWorkerType cloud name with
+      | some wt =>
+        match memPerCoreBytes cloud wt with
+        | none => .err
+        | some pc =>
+          finish (selectInstColl price locs pools j cloud none label preemptible (some wt) cores (coresToMemory cores pc) storage)
+      | none => .err   -- parse_memory_in_bytes('lowmem'…) cannot happen: the schema admits only memory_types or the regex
+    | .bytes b =>
+      finish (selectInstColl price locs pools j cloud none label preemptible none cores b storage)
+
 /-- resource block of `_create_jobs` for a docker job (`cloud = CLOUD`) -/
 def frontEnd (price : Pool → String → Nat × Nat × Nat → Nat) (locs : List String) (pools : List Pool) (j : Jpim)
     (d : Defaults) (cloud : Cloud) (r : Request) : Answer :=
-  -- `machine_type = resources.get('machine_type')`; a falsy ('' / None) machine type passes the `if machine_type and …` guards
-  let mtTruthy : Option String := match r.machineType with
-    | some mt => if mt = "" then none else some mt
-    | none => none
-  let label := match r.poolLabel with | some l => l | none => ""
-  let preemptible := match r.preemptible with | some b => b | none => d.preemptible
-  let storage := match r.storageBytes with | some s => s | none => d.storageBytes
-  match mtTruthy with
+  let label := r.poolLabel.getD ""                       -- `resources.get('pool_label') or ''`
+  let preemptible := r.preemptible.getD d.preemptible
+  let storage := r.storageBytes.getD d.storageBytes
+  match r.machineType with
+  | none =>
+    poolRequest price locs pools j cloud label preemptible (r.cpuMcpu.getD d.cpuMcpu) (r.memory.getD d.memory) storage
   | some mt =>
-    if ¬ validMachineType cloud mt then .invalid
+    if mt = "" then
+      -- '' is falsy: it passes every `if machine_type and …` guard, but it is not None, so cpu/memory are not read and
+      -- select_inst_coll reaches `assert machine_type and machine_type in valid_machine_types(cloud)`
+      finish (selectInstColl price locs pools j cloud (some mt) label preemptible none 0 0 storage)
+    else if ¬ validMachineType cloud mt then .invalid
     else if r.cpuMcpu.isSome ∨ r.memory.isSome then .invalid
     else if label ≠ "" then .invalid
-    else finish (selectInstColl price locs pools j cloud r.machineType label preemptible none 0 0 storage)
-  | none =>
-    match r.machineType with
-    | some _ =>
-      -- machine_type == '' is not None: req_cores_mcpu = None, then select_inst_coll asserts `machine_type and …`
-      finish (selectInstColl price locs pools j cloud r.machineType label preemptible none 0 0 storage)
-    | none =>
-      let cores := match r.cpuMcpu with | some c => c | none => d.cpuMcpu
-      if ¬ isValidCoresMcpu cores then .invalid
-      else
-        let memReq := match r.memory with | some m => m | none => d.memory
-        match memReq with
-        | .sym name =>
-          match memoryToWorkerType cloud name with
-          | some wt =>
-            match memPerCoreBytes cloud wt with
-            | none => .err
-            | some pc =>
-              finish (selectInstColl price locs pools j cloud none label preemptible (some wt) cores (coresToMemory cores pc) storage)
-          | none => .err   -- parse_memory_in_bytes('lowmem'…) cannot happen: schema admits only memory_types or the regex
-        | .bytes b =>
-          finish (selectInstColl price locs pools j cloud none label preemptible none cores b storage)
+    else finish (selectInstColl price locs pools j cloud (some mt) label preemptible none 0 0 storage)
 
 end HailVerif.Resources
